@@ -21,7 +21,8 @@ VARIABLES l,        \* number of consumed lines
 
 ovars == <<l, req, store, resp, events, crashes, ended, hashBad, hung, failed, viol>>
 
-Accts == {"A", "B", "C", "M", "world"}
+\* "BE": account B in a second asset (the harness maps it to the same address, asset EUR)
+Accts == {"A", "B", "BE", "C", "M", "world"}
 Zero == [a \in Accts |-> 0]
 P(s, d, a) == [src |-> s, dst |-> d, amt |-> a]
 SeedLog(id, kind, txid, tacct, mval, ps) ==
